@@ -123,7 +123,7 @@ where
     let _ = pre1;
     let expected = if idx < p.f { pending_bit::<E, W>(p.buffer, p.space, idx) } else { src.bit(r0 + idx - p.f) };
     assert_eq!(expected, post_bit::<E, W>(be, p.n0, k, nb, ns, idx), "copied bit differs from the source stream");
-    crate::cover!(s, k >= 2, "two or more words delivered");
+    crate::cover!(s, k >= 2 || (W::NBITS >= 64 && k >= 1), "two or more words delivered");
     crate::cover!(s, n > 0 && k == 0, "fits in the buffer");
     core::mem::forget(w);
 }
